@@ -1,12 +1,12 @@
 SPECIFICATION Spec
 CONSTANTS
   Accts = {"eoa", "fwd", "dbl", "mix"}
-  Paths = {"direct", "forward", "delegatecall", "lookalike", "fwdrevert", "mixed"}
+  Paths = {"direct", "delegatecall", "lookalike", "fwdrevert", "mixed"}
   Ops = {"delegate", "undelegate", "withdraw", "vote", "redelegate", "votew"}
-  Amts = {0, 1, 2, 9}
+  Amts = {0, 1, 9}
   Vals = {"valid", "second", "unknown"}
-  Options = {0, 1, 3, 7, 12, 31}
-  Start = 3
+  Options = {0, 1, 3, 12, 31}
+  Start = 2
   Deposit = 1
 INVARIANTS Conserved NonNegative
 PROPERTIES FailedTxChangesNothing OnlySystemContractEvents ForCallerOnly
